@@ -67,7 +67,7 @@ struct CState {
 fn request_pieces(rng: &mut StdRng, c: usize, k: usize, good: bool, limit: usize) -> Vec<Vec<u8>> {
     let uri = tag_uri(c, k);
     let mut req: Vec<u8> = vec![];
-    let kind = rng.gen_range(0..if good { 6 } else { 11 });
+    let kind = rng.gen_range(0..if good { 6 } else { 12 });
     match kind {
         0 | 1 => {
             req.extend(b"GET ");
@@ -112,6 +112,27 @@ fn request_pieces(rng: &mut StdRng, c: usize, k: usize, good: bool, limit: usize
             req.extend(b"GET ");
             req.extend(&uri);
             req.extend(b" HTTP/1.1\r\nNoColonHere\r\n\r\n");
+        }
+        10 => {
+            // a header line longer than the receive buffer with multi-byte characters and invalid bytes
+            // where the window ends (the 400 carries the lossy rendering of the window)
+            req.extend(b"GET ");
+            req.extend(&uri);
+            req.extend(b" HTTP/1.1\r\nX: ");
+            let n = crate::BUF + rng.gen_range(0..8);
+            let mut val: Vec<u8> = std::iter::repeat(b'v').take(n).collect();
+            let specials: [&[u8]; 5] = [&[0xFF], &[0xC3, 0xA9], &[0xE2, 0x82, 0xAC], &[0xC3], &[0x80]];
+            for _ in 0..rng.gen_range(1..4) {
+                let sp = specials[rng.gen_range(0..specials.len())];
+                let pos = (crate::BUF - 3).saturating_sub(rng.gen_range(0..6));
+                for (k, byte) in sp.iter().enumerate() {
+                    if pos + k < val.len() {
+                        val[pos + k] = *byte;
+                    }
+                }
+            }
+            req.extend(val);
+            req.extend(b"\r\n\r\n");
         }
         9 => {
             // asks for 100 Continue but declares more than the limit: the only answer is the 400
@@ -196,6 +217,14 @@ pub fn history(dom: &Domain, seed: u64, hist: u64, sock_dir: &str, out: &mut dyn
                         let pieces = request_pieces(&mut rng, c, k, true, limit);
                         d.step(&json!({"e": "send", "c": c, "bytes": obs::bytes(&pieces[0])}), out);
                     }
+                }
+            }
+            // the client waiting in the backlog may have gone when the server gets to it (at capacity: the
+            // refusal message cannot be delivered -- that must not hide the signal)
+            if rng.gen_bool(0.4) {
+                if let Some(c) = (1..=nclients).rev().find(|c| cs[c - 1].connected && !cs[c - 1].closed) {
+                    d.step(&json!({"e": "close", "c": c}), out);
+                    cs[c - 1].closed = true;
                 }
             }
             d.step(&json!({"e": "kill"}), out);
